@@ -6,6 +6,7 @@ import (
 	"errors"
 	"sort"
 	"sync"
+	"sync/atomic"
 
 	"github.com/NethermindEth/juno/db"
 	"github.com/NethermindEth/juno/db/memory"
@@ -50,6 +51,37 @@ type RecDB struct {
 	// FailCommitIf, if set, is asked under the commit lock before a write-set is applied;
 	// answering true makes that commit fail with ErrInjected (nothing of it is applied).
 	FailCommitIf func(ws WriteSet) bool
+
+	// onRead, if set (SetOnRead), is called - outside every lock of RecDB, on the reader's own
+	// goroutine - after each point read through the store or one of its snapshots: a place to
+	// put a delay or a directed action between two reads of one operation.
+	onRead atomic.Pointer[func(key []byte)]
+}
+
+// SetOnRead installs (nil: removes) the point-read hook.
+func (d *RecDB) SetOnRead(f func(key []byte)) {
+	if f == nil {
+		d.onRead.Store(nil)
+		return
+	}
+	d.onRead.Store(&f)
+}
+
+func (d *RecDB) didRead(key []byte) {
+	if f := d.onRead.Load(); f != nil {
+		(*f)(key)
+	}
+}
+
+type recSnapshot struct {
+	db.Snapshot
+	d *RecDB
+}
+
+func (s recSnapshot) Get(key []byte, cb func([]byte) error) error {
+	err := s.Snapshot.Get(key, cb)
+	s.d.didRead(key)
+	return err
 }
 
 func NewRecDB(inner db.KeyValueStore) *RecDB { return &RecDB{inner: inner} }
@@ -166,7 +198,9 @@ func (d *RecDB) Get(key []byte, cb func([]byte) error) error {
 	if err := d.readFault(); err != nil {
 		return err
 	}
-	return d.inner.Get(key, cb)
+	err := d.inner.Get(key, cb)
+	d.didRead(key)
+	return err
 }
 
 func (d *RecDB) NewIterator(prefix []byte, withUpperBound bool) (db.Iterator, error) {
@@ -188,8 +222,10 @@ func (d *RecDB) DeleteRange(start, end []byte) error {
 	return d.commit(ws, func() error { return d.inner.DeleteRange(start, end) })
 }
 
-func (d *RecDB) NewBatch() db.Batch              { return &recBatch{d: d, b: d.inner.NewBatch()} }
-func (d *RecDB) NewBatchWithSize(n int) db.Batch { return &recBatch{d: d, b: d.inner.NewBatchWithSize(n)} }
+func (d *RecDB) NewBatch() db.Batch { return &recBatch{d: d, b: d.inner.NewBatch()} }
+func (d *RecDB) NewBatchWithSize(n int) db.Batch {
+	return &recBatch{d: d, b: d.inner.NewBatchWithSize(n)}
+}
 func (d *RecDB) NewIndexedBatch() db.IndexedBatch {
 	ib := d.inner.NewIndexedBatch()
 	return &recIBatch{recBatch{d: d, b: ib}, ib}
@@ -199,7 +235,7 @@ func (d *RecDB) NewIndexedBatchWithSize(n int) db.IndexedBatch {
 	ib := d.inner.NewIndexedBatchWithSize(n)
 	return &recIBatch{recBatch{d: d, b: ib}, ib}
 }
-func (d *RecDB) NewSnapshot() db.Snapshot { return d.inner.NewSnapshot() }
+func (d *RecDB) NewSnapshot() db.Snapshot { return recSnapshot{d.inner.NewSnapshot(), d} }
 
 func (d *RecDB) Update(fn func(db.IndexedBatch) error) error {
 	b := d.NewIndexedBatch()
@@ -218,11 +254,11 @@ func (d *RecDB) Write(fn func(db.Batch) error) error {
 	}
 	return b.Write()
 }
-func (d *RecDB) Impl() any                                       { return d.inner.Impl() }
-func (d *RecDB) Path() string                                    { return d.inner.Path() }
+func (d *RecDB) Impl() any                                        { return d.inner.Impl() }
+func (d *RecDB) Path() string                                     { return d.inner.Path() }
 func (d *RecDB) WithListener(l db.EventListener) db.KeyValueStore { return d }
-func (d *RecDB) Close() error                                    { return d.inner.Close() }
-func (d *RecDB) Inner() db.KeyValueStore                         { return d.inner }
+func (d *RecDB) Close() error                                     { return d.inner.Close() }
+func (d *RecDB) Inner() db.KeyValueStore                          { return d.inner }
 
 type recBatch struct {
 	d   *RecDB
